@@ -236,6 +236,11 @@ func runFlowsConcurrent(c *Ctx, race bool, oracles ...flowOracle) {
 			lazy   bool
 		}{{0, false, false}, {len(flowCfgs()) / 2, false, false}, {0, true, false}, {len(flowCfgs()) / 2, true, false}, {0, false, true}, {len(flowCfgs()) / 2, false, true}} {
 			ci, second, lazy := cc.ci, cc.second, cc.lazy
+			if race && !c.Thorough() && (pr[1] != "basic" || (!second && !lazy)) {
+				// quick race tier: every flow next to the basic call, through a second listens entry and with
+				// a lazily opened connection (the variants in which two loops / accept and receive overlap)
+				continue
+			}
 			idx++
 			if !c.Mine(idx+5000) || c.Expired() {
 				continue
